@@ -7,6 +7,7 @@ import (
 	"math/big"
 	"path/filepath"
 	"runtime/debug"
+	"sort"
 
 	"verif/evmkit"
 
@@ -85,7 +86,9 @@ type AppView struct {
 	Balances map[string]string `json:"balances"`
 	Storage  map[string]string `json:"storage"`
 	KV       map[string]string `json:"kv"`
-	Receipts map[string]string `json:"receipts"` // per workload tx: "none" | "status=<n>"
+	// per key: the recorded update history (QueryType_Key_Update_History), "total=<n> [h<height>=<value> ...]"
+	KVHistory map[string]string `json:"kv_history"`
+	Receipts  map[string]string `json:"receipts"` // per workload tx: "none" | "status=<n>"
 }
 
 // Dump is the record of one node at a quiescent point.
@@ -186,7 +189,7 @@ func contractQuery(to common.Address, data []byte) []byte {
 }
 
 func (r *runner) appView(panics *[]string) AppView {
-	v := AppView{Nonces: map[string]uint64{}, Balances: map[string]string{}, Storage: map[string]string{}, KV: map[string]string{}, Receipts: map[string]string{}}
+	v := AppView{Nonces: map[string]uint64{}, Balances: map[string]string{}, Storage: map[string]string{}, KV: map[string]string{}, KVHistory: map[string]string{}, Receipts: map[string]string{}}
 	accts := map[string]common.Address{"A": accA.Addr, "B": accB.Addr, "C": accC.Addr, "K": accK.Addr, "V": accV.Addr, "storeA": storeA, "storeC": storeC}
 	for name, a := range accts {
 		if res, ok := r.query(panics, "nonce "+name, append([]byte{rtypes.QueryType_Nonce}, a.Bytes()...)); ok {
@@ -213,6 +216,29 @@ func (r *runner) appView(panics *[]string) AppView {
 			} else {
 				v.KV[string(k)] = string(res.Data)
 			}
+		}
+	}
+	for _, k := range [][]byte{keyK1, keyK2, keyNo} {
+		// page 1, page size 20 (the largest the application serves; the workloads write a key at most 4 times)
+		q := append([]byte{rtypes.QueryType_Key_Update_History, 0, 0, 0, 1, 0, 0, 0, 20}, k...)
+		if res, ok := r.query(panics, "kv history", q); ok {
+			if res.Code != gtypes.CodeType_OK {
+				v.KVHistory[string(k)] = "(query refused)"
+				continue
+			}
+			var hr gtypes.ValueHistoryResult
+			if err := rlp.DecodeBytes(res.Data, &hr); err != nil {
+				v.KVHistory[string(k)] = "undecodable"
+				continue
+			}
+			// the position of a tx inside its block depends on the order in which the pool offered the
+			// accounts (not fixed between two runs): recorded are the count and the (height, value) pairs
+			var es []string
+			for _, u := range hr.ValueUpdateHistories {
+				es = append(es, fmt.Sprintf("h%d=%s", u.BlockHeight, u.Value))
+			}
+			sort.Strings(es)
+			v.KVHistory[string(k)] = fmt.Sprintf("total=%d %v", hr.Total, es)
 		}
 	}
 	for i, tx := range r.wl.all {
